@@ -294,6 +294,7 @@ class C15:
     def generate(S, tier):
         P = _p(); Q = _q(); rng = S.rng
         stats = {"proofs": 0, "field_edits": 0, "mismatches": 0, "premise_checks": 0, "draws_seen": 0}
+        many_attribute_proofs(S, tier)
         # whole flows on the micro suite (17-bit primes): these cases are ALSO evaluated inside Coq (vm_compute, no extraction)
         xm = Q.make_ctx(S, "micro", 2)
         if xm is not None:
@@ -318,6 +319,7 @@ class C15:
                 if n >= 3: msgs[n - 1] = 2 ** x.P["lm"] - 1
                 sig = Q.sign(S, x, msgs)
                 if sig is None: continue
+                if suite == "toy": repeated_hidden_index_proofs(S, x, sig, msgs)
                 subsets = list(Q.all_subsets(n)) if suite == "toy" else [[0], [0, 1]]
                 for U in subsets:
                     r = S.run([spokgen_line(x, sig, msgs, U)], expect="ok", label="proof_gen")[0]
@@ -475,6 +477,20 @@ class C16:
                                 # (the whole proof_of_tolerance is a self-contained proof about E' = E^(2^T): a recombination, accepted)
                                 S.run([ver_line(d["CL03"], a, b) for _, d in tp], expect=[true_ if nm == "proof_of_tolerance" else reject for nm, _ in tp],
                                       label=[("recombination:range." if nm == "proof_of_tolerance" else "transplant:range.") + nm for nm, _ in tp])
+                        # the SAME interval width elsewhere (bounds shifted together), and the sub-proofs of this proof presented for ANOTHER
+                        # commitment (an honest proof about another value in the interval: its E and E' kept, its proof_of_tolerance replaced)
+                        if stats["proofs"] % 4 == 1:
+                            sh = [ver_line(doc, a + d_, b + d_) for d_ in (1, -1, 5, b - a + 1) if b + d_ > 0]
+                            S.run(sh, expect=reject, label="mismatch:bounds-shifted-together")
+                            v2 = next((u for u in (a, b, (a + b) // 2, a + 1) if u != v), None)
+                            if v2 is not None and suite == "toy":
+                                r2_ = rng.getrandbits(x.P["ln"]) | (1 << (x.P["ln"] - 1))
+                                E2 = pow(g, v2, n) * pow(h, r2_, n) % n if v2 >= 0 else pow(pow(g, -1, n), -v2, n) * pow(h, r2_, n) % n
+                                rp3 = S.run(["clrpprove %s %d %s %d %d %d %d %d" % (suite, v2, zl([E2, r2_]), g, h, n, a, b)], expect="ok", label="triv:prove-other-value")[0]
+                                if rp3.status == "OK":
+                                    import copy
+                                    d3 = copy.deepcopy(rp3.json(0)); d3["proof_of_tolerance"] = copy.deepcopy(doc["proof_of_tolerance"])
+                                    S.run([ver_line(d3, a, b)], expect=reject, label="transplant:range.proof_of_tolerance-onto-another-commitment")
                         # transplant forgeries built from this honest proof
                         if a >= 0 and stats["transplants"] < (12 if tier == "quick" else 200) and stats["proofs"] % 3 == 1:
                             for y in (b + 1000, b + 1, a - 1, a - 2**40, rng.getrandbits(300)):
@@ -656,6 +672,7 @@ class C17:
                 pairs = [("a_%d" % i, x.bases[i], b) for i in range(n)] + [("g_%d" % i, x.cpk[2 + i], x.cpk[1]) for i in range(n)]
                 msgs = [Q.rmsg(rng) for _ in range(n)]
                 sig = Q.sign(S, x, msgs)
+                if suite == "toy" and sig is not None: stats["recomputations"] += repeated_hidden_index_proofs(S, x, sig, msgs)
                 subsets = list(Q.all_subsets(n, nonempty=True)) if (suite == "toy" and tier != "quick") else [[0], list(range(n))]
                 for U in subsets:
                   for trusted in (False, True):
@@ -724,6 +741,16 @@ class C18:
                         rf = S.run(["Q,%s clkeygen %s" % (str(start).encode().hex(), suite)], expect="ok", label="keygen-forced-start")[0]
                         if rf.status == "OK" and (rf.z(3).bit_length() != sp + 1 or rf.z(4).bit_length() != sp + 1):
                             P.fail(S, "key-structure", "|p|,|q| = %d,%d after a prime search started at 2^SECPARAM - %d" % (rf.z(3).bit_length(), rf.z(4).bit_length(), (1 << sp) - start), [str(rf.z(0))])
+                if k == 0:
+                    # the SAME prime drawn twice in a row (random_bits and next_prime of both calls forced to p' = (p - 1) / 2): the two factors must still differ
+                    hp = str((p - 1) // 2).encode().hex()
+                    rf = S.run(["Q,%s,%s,%s,%s clkeygen %s" % (hp, hp, hp, hp, suite)], expect="ok", label="keygen-forced-equal-primes")[0]
+                    if rf.status == "OK" and (rf.z(3) == rf.z(4) or math.isqrt(rf.z(0)) ** 2 == rf.z(0)):
+                        P.fail(S, "key-structure", "p == q (N is a square) when the prime search returns the same prime twice", [str(rf.z(0))])
+                    if suite in ("toy", "toy2"):
+                        rf = S.run(["Q,%s,%s,%s,%s clcpk %s N 1" % (hp, hp, hp, hp, suite)], expect="ok", label="cpk-forced-equal-primes")[0]
+                        if rf.status == "OK" and math.isqrt(rf.zl(0)[0]) ** 2 == rf.zl(0)[0]:
+                            P.fail(S, "cpk-structure", "the own modulus of the commitment key is a square when the prime search returns the same prime twice", [str(rf.zl(0)[0])])
                 nb = 1 + k % 3
                 rb = S.run(["clbases %s %d %d" % (suite, N, nb)], expect="ok", label="bases")[0]
                 rc = S.run(["clcpk %s %d %d" % (suite, N, nb)], expect="ok", label="cpk(issuer modulus)")[0]
@@ -779,6 +806,39 @@ class C18:
 RESPONSE_KEYS = {"s1", "s2", "s_1", "s_2", "s_3", "s_4", "s_5", "s_6", "s_7", "s_8", "s_9", "d", "d_1", "d_2", "D_1", "D_2"}
 SIGMA_RESPONSE_KEYS = {"s1", "s2", "s_1", "s_2", "s_3", "s_4", "s_5", "s_6", "s_7", "s_8", "s_9"}
 
+def repeated_hidden_index_proofs(S, x, sig, msgs):
+    """signature proofs whose hidden-index list NAMES A POSITION TWICE ([0,0], [n-1,n-1], [0,n-1,n-1]): the verifier reads one response per
+    hidden position and ignores the others, so such proofs verify; every response they carry must still be masked"""
+    n = len(msgs); cnt = 0
+    lists = [[0, 0]] + ([[n - 1, n - 1], [0, n - 1, n - 1]] if n >= 2 else [])
+    for U in lists:
+        r = S.run([spokgen_line(x, sig, msgs, U)], expect="ok", label="proof_gen(repeated hidden index)")[0]
+        if r.status != "OK": continue
+        doc = r.json(0); sp = doc["CL03"]["spok"]; dr = parse_draws(r)
+        S.run([spokver_line(x, doc, msgs, U)], label="proof_verify(repeated hidden index)")
+        secrets = [("m_%d" % i, msgs[i]) for i in sorted(set(U))] + [("e", sig[0]), ("s", sig[1]), ("v", sig[2])]
+        q_, r_ = masking_attack(S, doc, [("c(spok)", clj.get(sp, ("challenge",)))], secrets, "spok[repeated hidden index %s]" % U); cnt += q_
+    return cnt
+
+def many_attribute_proofs(S, tier):
+    """credentials with MORE THAN 64 (thorough: 128, 256) attributes and hidden positions on both sides of the word boundary: the proof verifies and
+    every response is masked (position sets kept in machine words would lose the high positions)"""
+    Q = _q(); rng = S.rng; cnt = 0
+    for n in ([66] if tier == "quick" else [66, 130, 258]):
+        x = Q.make_ctx(S, "toy", n)
+        if x is None: continue
+        msgs = [Q.rmsg(rng) for _ in range(n)]
+        sig = Q.sign(S, x, msgs)
+        if sig is None: continue
+        for U in ([2, n - 1], [63, 64], [n - 2]):
+            r = S.run([spokgen_line(x, sig, msgs, U)], expect="ok", label="proof_gen(many attributes)")[0]
+            if r.status != "OK": continue
+            doc = r.json(0); sp = doc["CL03"]["spok"]
+            S.run([spokver_line(x, doc, msgs, U)], expect=true_, label="proof_verify(many attributes)")
+            secrets = [("m_%d" % i, msgs[i]) for i in U] + [("e", sig[0]), ("s", sig[1]), ("v", sig[2])]
+            q_, r_ = masking_attack(S, doc, [("c(spok)", clj.get(sp, ("challenge",)))], secrets, "spok[%d attributes, hidden %s]" % (n, U)); cnt += q_
+    return cnt
+
 def masking_attack(S, doc, challenges, secrets, what, sigma_only=True):
     """every response leaf / every recomputable challenge / every ordered pair of responses against every secret"""
     P = _p(); n = 0
@@ -819,6 +879,7 @@ class C19:
     def generate(S, tier):
         P = _p(); Q = _q(); rng = S.rng
         stats = {"proofs": 0, "quotients": 0, "responses": 0}
+        stats["quotients"] += many_attribute_proofs(S, tier)
         for suite, fx in Q.suites_for(tier):
             for n in ([1, 2, 3] if suite == "toy" else [2]):
                 x = Q.make_ctx(S, suite, n, use_fixture=fx)
@@ -826,6 +887,7 @@ class C19:
                 N = x.pk[0]; b = x.pk[1]; ln = x.P["ln"]
                 msgs = [Q.rmsg(rng) for _ in range(n)]
                 sig = Q.sign(S, x, msgs)
+                if suite == "toy" and sig is not None: stats["quotients"] += repeated_hidden_index_proofs(S, x, sig, msgs)
                 # ALL non-empty subsets (non-prefix hidden sets such as [1], [0, 2] index the blinding vectors differently)
                 subsets = list(Q.all_subsets(n, nonempty=True)) if suite == "toy" else [[1], list(range(n))]
                 for U in subsets:
